@@ -148,7 +148,12 @@ func (c *WebRTCPeer) connect(config *webrtc.Configuration, broker *BrokerChannel
 	// TODO: When go-webrtc is more stable, it's possible that a new
 	// PeerConnection won't need to be re-prepared each time.
 	err := c.preparePeerConnection(config)
-	localDescription := c.pc.LocalDescription()
+	// c.pc is nil when the PeerConnection could not be created (for example
+	// because of an invalid ICE server URL).
+	var localDescription *webrtc.SessionDescription
+	if c.pc != nil {
+		localDescription = c.pc.LocalDescription()
+	}
 	c.eventsLogger.OnNewSnowflakeEvent(event.EventOnOfferCreated{
 		WebRTCLocalDescription: localDescription,
 		Error:                  err,
